@@ -27,15 +27,15 @@ section core7
 variable (k : Nat)
 
 theorem coreTypeOf7_oracle (lists : Bool) (hk : lists = true → 0 < k) (cenv : CEnv) (N : Std.HashMap String Nat) (rid : Nat)
-    (ps : Params) (gv : Env) (outer : List Scope) (xt : XTab) :
-    TyOracle k (coreTypeOf7 xt lists) cenv N rid ps gv outer xt := by
+    (ps : Params) (gv : Env) (outer : List Scope) (xt : XTab) (dt : DTabs) :
+    TyOracle k (coreTypeOf7 xt lists) cenv N rid ps gv outer xt dt := by
   intro tn ty bv env c hinv h
   unfold coreTypeOf7 at h
   cases h0 : coreTypeOf lists tn with
   | some t =>
     rw [h0] at h
     cases h
-    exact coreTypeOf_oracle k lists hk cenv N rid ps gv outer xt tn ty bv env c hinv h0
+    exact coreTypeOf_oracle k lists hk cenv N rid ps gv outer xt dt tn ty bv env c hinv h0
   | none =>
     rw [h0] at h
     simp only at h
@@ -131,11 +131,11 @@ theorem indexStatement7_step (lists : Bool) (hk : lists = true → 0 < k) (st st
       | some name =>
         rw [hc, hn] at hchk
         cases hchk
-        obtain ⟨q, ht, hs, hxi, hsz⟩ := indexClassG_step k _ st.gv
-          (fun cenv1 xt' ps rb env N rid outer c6 c7 hinv hrb h7 =>
-            recordBody5_step k (coreTypeOf7 xt' lists) lists hk cenv1 N rb rid ps st.gv outer xt' env c6 c7
-              (coreTypeOf7_oracle k lists hk cenv1 N rid ps st.gv outer xt') hinv hrb h7)
-          st.cenv _ st.xt s c c' h.t5.tab h.t5.outer h.x hc hrun
+        obtain ⟨q, ht, hs, hxi, hsz, _⟩ := indexClassG_step k _ st.gv {} (fun _ _ => []) c.scopes.scopes
+          (fun cenv1 xt' ps rb env N rid outer c6 c7 _ hinv hrb h7 =>
+            recordBody5_step k (coreTypeOf7 xt' lists) lists hk cenv1 N rb rid ps st.gv outer xt' {} env c6 c7
+              (coreTypeOf7_oracle k lists hk cenv1 N rid ps st.gv outer xt' {}) hinv hrb h7)
+          st.cenv _ st.xt s c c' h.t5.tab h.t5.outer rfl h.x (DInv.nil _ _) rfl hc hrun
         refine ⟨q, h.t5.after ht hs hkeep, ?_, by rw [hsz, h.n]⟩
         have := hxi name hn
         rw [h.n] at this
@@ -152,12 +152,13 @@ theorem indexStatement7_step (lists : Bool) (hk : lists = true → 0 < k) (st st
         cases hb : Ast.defRecordBody s with
         | none => rw [hb] at hd; cases hd
         | some rb0 =>
-          obtain ⟨q, ht, hs, hxi, hsz⟩ := indexDefG_step k st.cenv (coreRecordBody5 (coreTypeOf7 st.xt lists) lists st.cenv st.gv)
-            st.gv st.xt
-            (fun rb env N rid outer c6 c7 hinv hrb h7 =>
-              recordBody5_step k (coreTypeOf7 st.xt lists) lists hk st.cenv N rb rid [] st.gv outer st.xt env c6 c7
-                (coreTypeOf7_oracle k lists hk st.cenv N rid [] st.gv outer st.xt) hinv hrb h7)
-            s c c' h.t5.tab h.t5.outer h.x (fun rb hrb => by rw [hb] at hd hrb; cases hrb; exact hd) hrun
+          obtain ⟨q, ht, hs, hxi, hsz, _⟩ := indexDefG_step k st.cenv (coreRecordBody5 (coreTypeOf7 st.xt lists) lists st.cenv st.gv)
+            st.gv st.xt {} (fun _ => []) c.scopes.scopes
+            (fun rb env N rid outer c6 c7 _ hinv hrb h7 =>
+              recordBody5_step k (coreTypeOf7 st.xt lists) lists hk st.cenv N rb rid [] st.gv outer st.xt {} env c6 c7
+                (coreTypeOf7_oracle k lists hk st.cenv N rid [] st.gv outer st.xt {}) hinv hrb h7)
+            s c c' h.t5.tab h.t5.outer rfl h.x rfl (fun _ _ _ _ _ _ _ _ => DInv.nil _ _)
+            (fun rb hrb => by rw [hb] at hd hrb; cases hrb; exact hd) hrun
           exact ⟨q, h.t5.after ht (hs (by rw [hb]; rfl)) hkeep, hxi, by rw [hsz, h.n]⟩
       · simp only [hd, Bool.false_eq_true, if_false] at hchk
         cases hchk
@@ -172,7 +173,7 @@ theorem indexStatement7_step (lists : Bool) (hk : lists = true → 0 < k) (st st
           obtain ⟨name, t⟩ := p
           rw [hdv] at hchk
           cases hchk
-          obtain ⟨q, h5, hn, hr⟩ := defvarTop5_step k st.cenv st.gv s name t c c' h.t5 hdv hrun
+          obtain ⟨q, h5, hn, hr, _⟩ := defvarTop5_step k st.cenv st.gv s name t c c' h.t5 hdv hrun
           refine ⟨q, h5, ?_, by rw [hr]; exact h.n⟩
           rw [hr]
           exact h.x.mono (Nat.le_refl _) (fun _ _ _ => by rw [hn])
